@@ -23,9 +23,13 @@ inductive Method | open | openHs | openAuth | openChan | read | write | isalive 
     OSError; `timeout`: raises socket.timeout; `liberr`/`liberr2`: raises the library's own
     connection-lost error / another library error; `none`: the handle is None;
     `dataIac`/`dataIacVerb`/`moreIac`/`moreIacVerb`: like `data`/`more`, and the chunk ends after an
-    IAC / after IAC + verb (Telnet transports only). -/
+    IAC / after IAC + verb (Telnet transports only); `cmdEpipe`/`cmdReset`/`cmdTimeout` (sync Telnet
+    transport): the chunk holds a complete negotiation command and the `send` of the reply the
+    transport owes raises EPIPE / ECONNRESET / socket.timeout — the peer reset or closed the session
+    while option replies were still owed (telnet/transport.py:_handle_control_chars_response). -/
 inductive Outcome | data | more | empty | eof | epipe | eio | reset | refused | unreach | timeout
     | liberr | liberr2 | none | dataIac | dataIacVerb | moreIac | moreIacVerb
+    | cmdEpipe | cmdReset | cmdTimeout
   deriving DecidableEq, Repr, Inhabited
 
 /-- state of a Telnet transport's control buffer (`_control_buf`, telnet/transport.py:30,
@@ -52,7 +56,7 @@ def Transport.all : List Transport := [.system, .telnet, .asynctelnet, .paramiko
 def Method.all : List Method := [.open, .openHs, .openAuth, .openChan, .read, .write, .isalive, .close]
 def Outcome.all : List Outcome :=
   [.data, .more, .empty, .eof, .epipe, .eio, .reset, .refused, .unreach, .timeout, .liberr, .liberr2, .none,
-   .dataIac, .dataIacVerb, .moreIac, .moreIacVerb]
+   .dataIac, .dataIacVerb, .moreIac, .moreIacVerb, .cmdEpipe, .cmdReset, .cmdTimeout]
 def Ctrl.all : List Ctrl := [.c0, .cIac, .cIacVerb]
 
 theorem Transport.mem_all (t : Transport) : t ∈ Transport.all := by cases t <;> simp [Transport.all]
@@ -69,13 +73,14 @@ def Outcome.toNat : Outcome → Nat
   | .data => 0 | .more => 1 | .empty => 2 | .eof => 3 | .epipe => 4 | .eio => 5 | .reset => 6
   | .refused => 7 | .unreach => 8 | .timeout => 9 | .liberr => 10 | .liberr2 => 11 | .none => 12
   | .dataIac => 13 | .dataIacVerb => 14 | .moreIac => 15 | .moreIacVerb => 16
+  | .cmdEpipe => 17 | .cmdReset => 18 | .cmdTimeout => 19
 def Ctrl.toNat : Ctrl → Nat
   | .c0 => 0 | .cIac => 1 | .cIacVerb => 2
 
 /-- key of the (sparse) post-loss tables -/
-def key3 (t : Transport) (m : Method) (o : Outcome) : Nat := (t.toNat * 8 + m.toNat) * 17 + o.toNat
+def key3 (t : Transport) (m : Method) (o : Outcome) : Nat := (t.toNat * 8 + m.toNat) * 20 + o.toNat
 def key5 (t : Transport) (lm : Method) (lo : Outcome) (m : Method) (o : Outcome) : Nat :=
-  (key3 t lm lo * 8 + m.toNat) * 17 + o.toNat
+  (key3 t lm lo * 8 + m.toNat) * 20 + o.toNat
 /-- keys of the tables that also depend on the control buffer state -/
 def keyC3 (c : Ctrl) (t : Transport) (m : Method) (o : Outcome) : Nat := c.toNat * 1000000 + key3 t m o
 def keyC5 (c : Ctrl) (t : Transport) (lm : Method) (lo : Outcome) (m : Method) (o : Outcome) : Nat :=
